@@ -245,7 +245,7 @@ PROPS = {
     },
     "C10": {
         "gens": ["inflight"],
-        "lean_targets": ["Cql.Props.C10", "Cql.Props.C10Dispatch"],
+        "lean_targets": ["Cql.Props.C10", "Cql.Props.C10Dispatch", "Cql.Props.C16AsWritten"],
         "trusted_base": COMMON_TRUST + [HARNESS,
             "Cql/Inflight.lean: hand-written API-level model of client/inflight.go, tied to the code by the correspondence run",
             "Cql/Dispatch.lean: hand-written model of CqlClientConnection.processIncomingFrame (event branch, non-blocking send on the event "
